@@ -1,7 +1,7 @@
 (* BclCorr.v — correspondence cases for C11: what lexer, walker, ParseFile and
    HumanString were observed to do on an input, checked against the model by
    vm_compute.  Only projected observables: token types / literals / ranges,
-   node kinds and ranges, diagnostic ranges, which guard of humanString fired. *)
+   node kinds and ranges, diagnostic ranges and messages, which guard of humanString fired. *)
 From Coq Require Import String List NArith ZArith Bool.
 From J5V.lib Require Import Text Outcome Corr.
 From J5V.model Require Import BclLexer BclParser BclErrpos.
@@ -17,9 +17,12 @@ Definition otok_eqb (a b : otok) : bool :=
   let '(c1, l1, s1, e1) := a in let '(c2, l2, s2, e2) := b in
   N.eqb c1 c2 && list_N_eqb l1 l2 && pos_eqb s1 s2 && pos_eqb e1 e2.
 
-Definition odiag : Type := (pos * pos)%type.
-Definition diag_obs (d : diag) : odiag := (dstart d, dend d).
-Definition odiag_eqb (a b : odiag) : bool := pos_eqb (fst a) (fst b) && pos_eqb (snd a) (snd b).
+(* an observed diagnostic: range and message bytes (errpos.Err.Err.Error()) *)
+Definition odiag : Type := (pos * pos * list N)%type.
+Definition diag_obs (d : diag) : odiag := (dstart d, dend d, dmsg d).
+Definition odiag_eqb (a b : odiag) : bool :=
+  let '(s1, e1, m1) := a in let '(s2, e2, m2) := b in pos_eqb s1 s2 && pos_eqb e1 e2 && list_N_eqb m1 m2.
+Definition diag_of_obs (d : odiag) : diag := let '(s, e, m) := d in mkDiag s e m.
 Definition pnode_eqb (a b : pnode) : bool :=
   let '(k1, s1, e1) := a in let '(k2, s2, e2) := b in N.eqb k1 k2 && pos_eqb s1 s2 && pos_eqb e1 e2.
 
@@ -68,10 +71,10 @@ Definition c11_check (c : c11case) : bool :=
      end)
   | CFilePanic input ff => is_panic (parse_file input ff)
   | CHuman input context ds obs =>
-    match human_bytes input context (map (fun d => mkDiag (fst d) (snd d)) ds) with
+    match human_bytes input context (map diag_of_obs ds) with
     | Ok hs => list_eqb hres_eqb hs obs
     | _ => false
     end
   | CHumanPanic input context ds =>
-    is_panic (human_bytes input context (map (fun d => mkDiag (fst d) (snd d)) ds))
+    is_panic (human_bytes input context (map diag_of_obs ds))
   end.
